@@ -71,7 +71,7 @@ def all_expr_paths(ctx):
     key = id(ctx.prog)
     if key not in _CACHE:
         out = {}
-        for kind in asdl.EXPR_KINDS:
+        for kind in list(asdl.EXPR_KINDS) + ["comprehension", "keyword"]:
             out[kind] = list(expr_paths(ctx.prog, kind))
         _CACHE[key] = out
     return _CACHE[key]
